@@ -51,7 +51,7 @@ FILES = [
     "src/hypergraph/viz/renderer/precompute.py",
     "src/hypergraph/viz/mermaid.py",
 ]
-ALL = [f"C{i:02d}" for i in range(1, 21)]
+ALL = [c for c in os.environ.get("TWIN_CHECKS", "").split(",") if c] or [f"C{i:02d}" for i in range(1, 21)]
 
 
 def locals_of(fn):
@@ -153,14 +153,14 @@ def main():
                     continue
                 for pid in ALL:
                     jobs.append((rel, fn.name, fn.lineno, loc, pid, (f"rules.{pid.lower()}", REPO, {rel: newsrc}, "quick")))
-    print(f"{len(jobs) // 20} rename twins x 20 checks = {len(jobs)} evaluations", flush=True)
+    print(f"{len(jobs) // len(ALL)} rename twins x {len(ALL)} checks = {len(jobs)} evaluations", flush=True)
     bad = []
     with ProcessPoolExecutor(16) as ex:
         for job, (fired, err) in zip(jobs, ex.map(_eval_overlay, [j[5] for j in jobs], chunksize=20)):
             if fired:
                 bad.append({"file": job[0], "function": job[1], "line": job[2], "local": job[3], "check": job[4], "fired": fired, "error": err})
     out = os.path.join(HERE, "notes", "twin_sweep.json")
-    json.dump({"twins": len(jobs) // 20, "evaluations": len(jobs), "false_alarms": bad}, open(out, "w"), indent=1)
+    json.dump({"twins": len(jobs) // len(ALL), "checks": ALL, "evaluations": len(jobs), "false_alarms": bad}, open(out, "w"), indent=1)
     for b in bad:
         print(f"FALSE ALARM {b['check']} {b['fired']} on rename of local '{b['local']}' in {b['file']}:{b['function']}@{b['line']} {b['error'] or ''}")
     print(f"false alarms: {len(bad)} / {len(jobs)} evaluations")
